@@ -45,7 +45,7 @@
 (* 18th digit matters) cannot be represented and are left to the           *)
 (* big-number tier.                                                        *)
 (***************************************************************************)
-EXTENDS Integers, Sequences, FiniteSets, TLC
+EXTENDS Integers, Sequences, FiniteSets, TLC, SwapClauses
 
 RECURSIVE Pow10(_)
 Pow10(n) == IF n <= 0 THEN 1 ELSE 10 * Pow10(n - 1)
@@ -92,12 +92,21 @@ LossLess(input, rn, rd, sIn, sOut, PK) ==
   IF outputDec = outputInt
   THEN [burn |-> input, mint |-> mint, giveback |-> FALSE, exact |-> ex12]
   ELSE
-    \* fix (F6): need := outputInt.QuoRoundUp(ratio).QuoRoundUp(scaleMultipler);
-    \* input = need.Ceil().TruncateInt().  Every step rounds up on a grid that
-    \* refines the integers, and nested ceilings over integer divisors collapse
-    \* (ceil(ceil(x*10^18)/10^18 ... ) = ceil(x)), so the result is the exact
-    \* rational ceiling  ceil(mint * rd * smD / (rn * smN))  — no precision
-    \* parameter is involved in this branch.
+    \* fix (F6, 49417f5): need := outputInt.QuoRoundUp(ratio).QuoRoundUp(scaleMultipler);
+    \* input = need.Ceil().TruncateInt().
+    \* dec.go QuoRoundUp(a, b) = ceil(floor(a.i * P^2 / b.i) / P): it is the ceiling
+    \* of X = a.i*P/b.i unless 0 < frac(X) < 1/P.  On the rows TLC evaluates
+    \* (RowFits: rd | 10^3, mantissa of the ratio = rn*P/rd) the two quotients are
+    \*   X1 = mint*P*rd/rn          (fractional part a multiple of 1/rn >= 1/P)
+    \*   X2 = ceil(X1)*smD/smN      (smN | 10^7, fractional part >= 1/P)
+    \* so both round up exactly, and  Ceil(ceil(ceil(X1)*smD/smN)/P)  equals
+    \* ceil(mint*rd*smD/(rn*smN)): ceil(ceil(x)/n) = ceil(x/n) for integer n, and
+    \* multiplying ceil(X1) by smD adds less than smD/P to the quotient while
+    \* a non-integer mint*rd*smD/rn is at least 1/rn away from the next integer
+    \* (rn*smD < P).  Hence the exact rational ceiling below; no precision
+    \* parameter is involved in this branch.  (For 18-digit ratios with
+    \* mantissa > P the first QuoRoundUp can fail to round up by one 10^-18:
+    \* big-number tier.)
     LET num == mint * rd * smD
         den == rn * smN
         burn == (num + den - 1) \div den
@@ -138,21 +147,16 @@ LossLessRow(input, rn, rd, sIn, sOut) ==
 WIn(sIn, sOut) == IF sIn >= sOut THEN Pow10(sIn - sOut) ELSE 1    \* weight on the mint side
 WOut(sIn, sOut) == IF sOut > sIn THEN Pow10(sOut - sIn) ELSE 1   \* weight on the burn side
 
-(* never burns more than was offered (and never a negative amount) *)
-Swap_NoOverBurn(input, burn, mint) == 0 <= burn /\ burn <= input /\ mint >= 0
-
-(* never mints more than the burned amount is worth *)
+(* The clauses themselves are in SwapClauses.tla (shared with the big-number
+   tier, where Z3 evaluates the same operators on 128-bit values); here the
+   decimal weights are computed from the scales. *)
+Swap_NoOverBurn(input, burn, mint) == Swap_NoOverBurnW(input, burn, mint)
 Swap_Worth(burn, mint, rn, rd, sIn, sOut) ==
-  mint * rd * WIn(sIn, sOut) <= burn * rn * WOut(sIn, sOut)
-
-(* at ratio 1 it is exact: burned * 10^sOut = minted * 10^sIn *)
+  Swap_WorthW(burn, mint, rn, rd, WIn(sIn, sOut), WOut(sIn, sOut))
 Swap_ExactAtOne(burn, mint, rn, rd, sIn, sOut) ==
-  (rn = rd) => burn * WOut(sIn, sOut) = mint * WIn(sIn, sOut)
-
-(* unconvertible dust stays with the sender: what is not burned is worth
-   less than one output min-unit *)
+  Swap_ExactAtOneW(burn, mint, rn, rd, WIn(sIn, sOut), WOut(sIn, sOut))
 Swap_Dust(input, burn, rn, rd, sIn, sOut) ==
-  (input - burn) * rn * WOut(sIn, sOut) < rd * WIn(sIn, sOut)
+  Swap_DustW(input, burn, rn, rd, WIn(sIn, sOut), WOut(sIn, sOut))
 
 (* Finding F6: the give-back branch multiplies the output fraction by the
    reverse scale only (not divided by the ratio) and truncates the burn.
